@@ -33,7 +33,7 @@ LEVEL_NOTE = ("Trusted: FactsModel (documented caching rules), SimTTY's ioctl/XT
               "and is not generated; enable_queries() racing with first calls is (only the state "
               "after both have finished is judged).")
 TIERS = {
-    "quick": {"runs": 9000, "max_ops": 30},
+    "quick": {"runs": 14000, "max_ops": 30},
     "thorough": {"runs": 400000, "max_ops": 30, "wall_cap": 1500},
 }
 RULE = ("history world = seeded terminal profile + <= max_ops operations; concurrency world = "
@@ -46,6 +46,7 @@ PROBES = ["resize_during_cell_size_query", "toggle_then_get_at_unchanged_size", 
           "concurrent_first_calls", "task_waited_on_memo_lock", "auto_ratio_unsupported",
           "resize_back_to_earlier_size", "enable_queries_races_with_first_call",
           "swap_toggle_races_with_cell_size_calls", "memoized_falsy_result",
+          "process_start_races_with_cell_size_calls", "staged_lock_hand_over_schedule",
           "cell_size_query_interrupted"]
 COMPONENTS = {
     "real": ["term_image.utils.get_cell_size / cached / terminal_size_cached / "
@@ -60,9 +61,127 @@ ASSUMPTIONS = ["terminal replies arrive within the query timeout",
 
 
 def run(ch, ctx, fault=None):
-    if ch.bool("concurrent", 0.2):
+    if ch.bool("concurrent", 0.25):
+        if ch.bool("start_race_world", 0.5):
+            return run_start_race(ch, ctx, fault)
         return run_concurrent(ch, ctx, fault)
     return run_history(ch, ctx, fault)
+
+
+def run_start_race(ch, ctx, fault):
+    """The first Process.start() of a program replaces the cell-size lock and cache by
+    process-shared ones while other threads compute the cell size or toggle the win-size swap:
+    after all of them have finished, the cell size equals a fresh computation."""
+    ctx.probe("process_start_races_with_cell_size_calls")
+    profile = gen_profile(ch, always_da1=True)
+    w = World(ctx, ch, fault, rows=24, cols=80, profile=profile, cell_px=(8, 16), reuse=True)
+    k, tty, vt = w.k, w.tty, w.vt
+    k.log_seams = False
+    k.policy = ch.pick("policy", ("random", "sticky", "pct"))
+    if k.policy == "pct":
+        k.pct_points = tuple(sorted(ch.int("pctp", 1, 300) for _ in range(ch.int("pctd", 1, 4))))
+    tty.delay_fn = lambda kind: ch.int("delay", 0, 2_000_000)
+    tty.ioctl_pixels = ch.bool("ioctl_px", 0.7)
+    model = FactsModel(profile, tty.environ, vt, tty)
+    with w:
+        utils, ti = w.utils, w.ti
+        pw = procs.ProcWorld(w)
+        if ch.bool("warm", 0.5):
+            utils.get_cell_size()
+        n_get = ch.int("n_get", 1, 3)
+        toggles = ch.int("toggles", 1, 2)
+        got = {}
+
+        def getter(j):
+            got[j] = utils.get_cell_size()
+
+        def starter():
+            pw.start_process(lambda pw_, child: None, ch.pick("method", ("fork", "spawn")),
+                             "child")
+
+        def toggler():
+            for _ in range(toggles):
+                (ti.disable_win_size_swap if utils._swap_win_size
+                 else ti.enable_win_size_swap)()
+                k.yield_point("between-toggles")
+
+        k.tasks = []
+        k.aborting = False
+        k.tracefunc = procs.make_tracer(k, src_dir())
+        bodies = [(lambda j=j: getter(j)) for j in range(n_get)] + [starter, toggler]
+        order = list(range(len(bodies)))
+        tasks = []
+        for i in order:
+            t = k.spawn(bodies[i], "t%d" % i, 0)
+            pw.current_proc[t.tid] = pw.p0
+            tasks.append(t)
+        if ch.bool("staged", 0.6):
+            # a seeded but *staged* schedule: the starter runs until it holds the old cell-size
+            # lock, then the getters run until they are parked on it, then long uninterrupted
+            # stretches with rare switches (the hand-over window is a few lines wide; uniform
+            # switching at every line almost never keeps a thread inside it)
+            old_lock = utils._cell_size_lock
+            t_start = tasks[n_get]
+            getters_ = tasks[:n_get]
+            sw = ch.pick("switch_p", (0.04, 0.08, 0.15))
+
+            t_toggle = tasks[n_get + 1]
+            hold_toggler = ch.int("toggler_after", 0, 90)   # getter steps after the hand-over
+            steps_after = [0]
+
+            def pick(cands, last):
+                if old_lock.owner != t_start.tid and utils._cell_size_lock is old_lock \
+                        and t_start in cands:
+                    return t_start
+                if old_lock.owner == t_start.tid:
+                    g = [t for t in cands if t in getters_]
+                    if g:
+                        return g[0]
+                if utils._cell_size_lock is not old_lock:
+                    # after the hand-over: the toggler is held back until a getter has run a
+                    # seeded number of steps (lines) inside its computation, then runs through
+                    if last in getters_:
+                        steps_after[0] += 1
+                    others = [t for t in cands if t is not t_toggle]
+                    if steps_after[0] < hold_toggler and others:
+                        g = [t for t in others if t in getters_]
+                        if last in others and not ch.bool("sw", sw):
+                            return last
+                        return ch.pick("t", g or others)
+                    if t_toggle in cands and t_toggle.state != "done":
+                        return t_toggle
+                if last in cands and not ch.bool("sw", sw):
+                    return last
+                return ch.pick("t", cands)
+
+            k.policy = "custom"
+            k.custom_pick = pick
+            ctx.probe("staged_lock_hand_over_schedule")
+        try:
+            k.run_tasks()
+        finally:
+            k.tracefunc = None
+        for t in k.tasks:
+            if t.exc is not None:
+                if isinstance(t.exc, Violation):
+                    raise Violation(t.exc.invariant, t.exc.detail, t.exc.site)
+                raise Violation("task_raised", {"task": t.name, "exc": repr(t.exc)}, "task")
+        model.set_swap(bool(utils._swap_win_size))
+        if tty.last_reply_at > k.now:
+            k.advance(tty.last_reply_at - k.now)
+        tty.inq.clear()
+        g = utils.get_cell_size()
+        g = g and tuple(g)
+        ctx.op("%d getters + Process.start() + %d swap toggle(s): %r; afterwards get_cell_size() "
+               "-> %r (%d switches)" % (n_get, toggles, [repr(got.get(j)) for j in range(n_get)],
+                                        g, k.switches))
+        check(g == model.fresh_cell(), "cell_size_computed_under_old_swap_setting_survives",
+              {"got": g, "fresh": model.fresh_cell(), "swap": model.swap,
+               "during": [repr(got.get(j)) for j in range(n_get)]}, "concurrent.start")
+        if k.contended:
+            ctx.nontrivial = True
+        ctx.key("start_race", n_get, toggles, k.policy, k.sched_trace[:80])
+        ctx.log("sched", k.sched_trace[:1500])
 
 
 def run_history(ch, ctx, fault):
@@ -429,6 +548,7 @@ def run_concurrent(ch, ctx, fault):
             return ("value", a, calls[a])
 
         tsc_calls = [0]
+        pw = [None]
 
         @utils.terminal_size_cached
         def tsc():
@@ -448,6 +568,11 @@ def run_concurrent(ch, ctx, fault):
             enable_race = which not in ("memo", "tsc") and ch.bool("enable_race", 0.35)
             # the win-size-swap toggle racing with cell-size computations
             swap_race = which == "cell" and not enable_race and ch.bool("swap_race", 0.4)
+            # ... and with the first Process.start(), which replaces the cell-size lock (and
+            # cache) by process-shared ones while other threads may be waiting on the old lock
+            start_race = swap_race and ntasks >= 3 and ch.bool("start_race", 0.5)
+            if start_race and pw[0] is None:
+                pw[0] = procs.ProcWorld(w)
             if swap_race:
                 ctx.probe("swap_toggle_races_with_cell_size_calls")
                 if ch.bool("warm", 0.5):
@@ -468,8 +593,13 @@ def run_concurrent(ch, ctx, fault):
             k.aborting = False
 
             def body(j, which=which, args=args, got=got, enable_race=enable_race,
-                     swap_race=swap_race):
-                if enable_race and j == 0:
+                     swap_race=swap_race, start_race=start_race):
+                if start_race and j == 1:
+                    ctx.probe("process_start_races_with_cell_size_calls")
+                    pw[0].start_process(lambda pw_, child: None,
+                                        ch.pick("method", ("fork", "spawn")), "child")
+                    got[j] = "Process.start()"
+                elif enable_race and j == 0:
                     ti.enable_queries()
                     got[j] = "enable_queries()"
                 elif swap_race and j == 0:
@@ -512,8 +642,7 @@ def run_concurrent(ch, ctx, fault):
                 g = g and tuple(g)
                 check(g == model.fresh_cell(), "cell_size_computed_under_old_swap_setting_survives",
                       {"got": g, "fresh": model.fresh_cell(), "swap": model.swap,
-                       "tasks": [got.get(j) and tuple(got[j]) if j else got.get(j)
-                                 for j in range(ntasks)]}, "concurrent.swap")
+                       "tasks": [repr(got.get(j)) for j in range(ntasks)]}, "concurrent.swap")
             elif enable_race:
                 check(utils._queries_enabled, "queries_not_enabled", {}, "concurrent.enable")
                 if tty.last_reply_at > k.now:
